@@ -44,7 +44,7 @@ int main(int argc, char** argv) {
     session = node.session_key(peer);
     deliver(node, base(1, make_manifest(1, 1, 1, 3600)), true);
     if (!state_for(node, 1)) { std::printf("baseline announce was not accepted: replay inconclusive\n"); return 2; }
-    const char* all[] = {"other_peer", "bad_pow", "old_version", "wrong_chunk", "few_shards", "expired", "garbage", "too_fast"};
+    const char* all[] = {"other_peer", "bad_pow", "old_version", "wrong_chunk", "few_shards", "expired", "garbage", "too_fast", "foreign_share"};
     int rc = 0;
     for (const char* sc : all) {
         if (scenario != "all" && scenario != sc) continue;
@@ -59,6 +59,7 @@ int main(int argc, char** argv) {
         else if (s == "old_version") { version = 2; }
         else if (s == "wrong_chunk") { ap.manifest_uri = make_manifest(static_cast<std::uint8_t>(tag + 100), 1, 1, 3600); }
         else if (s == "few_shards") { ap.manifest_uri = make_manifest(tag, 3, 3, 3600); auto m = protocol::decode_manifest(ap.manifest_uri); m.shards.resize(1); ap.manifest_uri = protocol::encode_manifest(m); }
+        else if (s == "foreign_share") { ap.manifest_uri = make_manifest(tag, 2, 3, 3600); auto m = protocol::decode_manifest(ap.manifest_uri); m.shards.resize(2); ap.manifest_uri = protocol::encode_manifest(m); ap.assigned_shards = {3}; }   // share 3 is not carried
         else if (s == "expired") { ap.manifest_uri = make_manifest(tag, 1, 1, -30); }
         else if (s == "garbage") { ap.manifest_uri = "eph://!!!not-a-manifest"; }
         else if (s == "too_fast") { deliver(node, base(9, make_manifest(9, 1, 1, 3600)), true); }   // accepted; the next one follows within the minimum interval
